@@ -17,7 +17,7 @@ seen so far, i.e. the checksums the *implementation's* worker computed)
 * `fd-frag <flags-hex> <chk-hex> <datahex>`               → `sparse` | `loc <index> <offset>` | `err <kind>`
 * `fd-written <index-dec>`                                → `ok` | `err <kind>`
 * `fd-finish`                                             → `ok`
-* `fd-block <index-dec>`                                  → `block <datahex> <open|flight|written|lost>` | `none`
+* `fd-block <index-dec>`                                  → `block <datahex> <open|flight|written>` | `none`
 * `fd-read <index-dec>`                                   → `read <datahex>` | `none`   (what a reader gets)
 Monitor (stateless; evaluates the specification on bytes the *implementation* produced)
 * `mon-slice <filehex> <loc-dec> <payloadhex>`          → `1` | `0`
@@ -51,7 +51,6 @@ def showPlace : Sqfs.FragDedup.Place → String
   | .opened => "open"
   | .inFlight => "flight"
   | .written _ _ => "written"
-  | .lost => "lost"
 
 def showErr : Err → String
   | .outOfBounds => "err oob"
